@@ -28,7 +28,7 @@ VARIABLES l, st
 Has(ev, f) == f \in DOMAIN ev
 ToSet(seq) == {seq[i] : i \in 1..Len(seq)}
 CntKeys == {"go", "info", "best", "end", "pv_moves", "stop_runs", "early_stop_runs", "poison_runs", "searchmoves_runs", "depth_runs",
-            "mate_claims", "mate_true", "mate_undecided", "mate1_roots", "thread_runs", "isready_runs", "time_runs", "viol"}
+            "mate_claims", "mate_true", "mate_undecided", "mate1_roots", "solver_agrees", "solver_decided", "thread_runs", "isready_runs", "time_runs", "viol"}
 Cnt0 == [k \in CntKeys |-> 0]
 Bump(c, ks) == [k \in CntKeys |-> IF k \in ks THEN c[k] + 1 ELSE c[k]]
 NoRun == [active |-> FALSE]
@@ -55,7 +55,7 @@ OnGo(s, ev, ln) ==
       L == Legal(root)
       lim == ev.limits
   IN [st |-> [s EXCEPT !.run = [active |-> TRUE, fen |-> ev.fen, root |-> root, legal |-> L, lim |-> lim, nextDepth |-> 1,
-                                 best |-> <<>>, lastInfo |-> [none |-> TRUE], depthLimit |-> DepthLimit(lim.go)],
+                                 best |-> <<>>, lastInfo |-> [none |-> TRUE], depthLimit |-> DepthLimit(lim.go), solver |-> "none"],
                        !.cnt = Bump(s.cnt, {"go"} \cup (IF lim.stop_id # "" THEN {"stop_runs"} ELSE {})
                                             \cup (IF lim.tt = "poison" THEN {"poison_runs"} ELSE {})
                                             \cup (IF lim.searchmoves # <<>> THEN {"searchmoves_runs"} ELSE {})
@@ -91,18 +91,27 @@ MateChecks(r, ln, doMate1) ==
                  ELSE IF y = 0 THEN "false"
                  ELSE IF y > 0 THEN ClaimPositive(r.root, y, hint, MateMaxN)
                  ELSE ClaimNegative(r.root, -y, MateMaxN)
-      v1 == IF verdict = "false" THEN <<V(ln, "C08", "false_mate_announcement", r.fen, [y |-> y, pv |-> li.pv, depth |-> li.depth, go |-> r.lim.go, tt |-> r.lim.tt])>> ELSE <<>>
+      \* beyond the depth explored here the untrusted exhaustive solver of the harness (same definition, engine move generator) decides;
+      \* within it the two verdicts must agree (cross-check of the solver against the specification on every run)
+      sv == r.solver
+      disagree == verdict \in {"true", "false"} /\ sv \in {"true", "false"} /\ sv # verdict
+      final == IF verdict = "undecided" /\ sv \in {"true", "false"} THEN sv ELSE verdict
+      v1 == (IF final = "false" THEN <<V(ln, "C08", "false_mate_announcement", r.fen, [y |-> y, pv |-> li.pv, depth |-> li.depth, go |-> r.lim.go, tt |-> r.lim.tt,
+                                                                                      decided_by |-> IF verdict = "false" THEN "MateOracle.tla" ELSE "harness solver (beyond the TLC bound)"])>> ELSE <<>>)
+            \o (IF disagree THEN <<V(ln, "X", "solver_disagrees_with_specification", r.fen, [y |-> y, spec |-> verdict, solver |-> sv])>> ELSE <<>>)
       m1 == doMate1 /\ HasMateIn1(r.root, r.legal)
       v2 == IF m1 /\ Len(r.best) = 1 /\ WellFormedUci(r.best[1]) /\ ParseUci(r.best[1]) \in r.legal /\ ~IsMate(Apply(r.root, ParseUci(r.best[1])))
             THEN <<V(ln, "C08", "mate_in_one_not_played", r.fen, [bestmove |-> r.best[1], go |-> r.lim.go, tt |-> r.lim.tt])>> ELSE <<>>
-  IN [viol |-> v1 \o v2, bumps |-> (IF hasClaim THEN {"mate_claims"} ELSE {}) \cup (IF verdict = "true" THEN {"mate_true"} ELSE {})
-                                    \cup (IF verdict = "undecided" THEN {"mate_undecided"} ELSE {}) \cup (IF m1 THEN {"mate1_roots"} ELSE {})]
+  IN [viol |-> v1 \o v2, bumps |-> (IF hasClaim THEN {"mate_claims"} ELSE {}) \cup (IF final = "true" THEN {"mate_true"} ELSE {})
+                                    \cup (IF final = "undecided" THEN {"mate_undecided"} ELSE {}) \cup (IF m1 THEN {"mate1_roots"} ELSE {})
+                                    \cup (IF verdict \in {"true", "false"} /\ sv \in {"true", "false"} /\ ~disagree THEN {"solver_agrees"} ELSE {})
+                                    \cup (IF verdict = "undecided" /\ sv \in {"true", "false"} THEN {"solver_decided"} ELSE {})]
 
 OnEnd(s, ev, ln) ==
   LET r == s.run
       threads == Has(ev, "mode")
       v1 == IF ev.bestcount # 1 THEN <<V(ln, "C05", "bestmove_count", r.fen, [count |-> ev.bestcount, go |-> r.lim.go, stop_id |-> r.lim.stop_id, stop_n |-> r.lim.stop_n, lost_stop |-> ev.lost_stop])>> ELSE <<>>
-      v2 == IF ev.lost_stop THEN <<V(ln, "C06", "stop_lost", r.fen, [stop_id |-> r.lim.stop_id, stop_n |-> r.lim.stop_n, go |-> r.lim.go, visits_after_stop |-> ev.visits_after_stop, threads |-> threads])>> ELSE <<>>
+      v2 == IF ev.lost_stop \/ (Has(ev, "aborted") /\ ev.aborted) THEN <<V(ln, "C06", "stop_lost", r.fen, [stop_id |-> r.lim.stop_id, stop_n |-> r.lim.stop_n, go |-> r.lim.go, visits_after_stop |-> ev.visits_after_stop, threads |-> threads])>> ELSE <<>>
       v3 == IF ~ev.lost_stop /\ ev.stop_delivered /\ ev.visits_after_stop > UnwindBound
             THEN <<V(ln, "C06", "stop_not_prompt", r.fen, [stop_id |-> r.lim.stop_id, stop_n |-> r.lim.stop_n, visits_after_stop |-> ev.visits_after_stop])>> ELSE <<>>
       v4 == IF ev.iters_after_stop > 0 THEN <<V(ln, "C06", "iteration_started_after_stop", r.fen, [stop_id |-> r.lim.stop_id, stop_n |-> r.lim.stop_n, iterations |-> ev.iters_after_stop])>> ELSE <<>>
@@ -126,6 +135,7 @@ Process(s, ev, ln) ==
   ELSE IF ~s.run.active THEN [st |-> s, viol |-> <<>>]
   ELSE IF ev.e = "info" THEN OnInfo(s, ev, ln)
   ELSE IF ev.e = "best" THEN OnBest(s, ev, ln)
+  ELSE IF ev.e = "solver" THEN [st |-> [s EXCEPT !.run.solver = ev.verdict], viol |-> <<>>]
   ELSE IF ev.e = "end" THEN OnEnd(s, ev, ln)
   ELSE [st |-> s, viol |-> <<>>]
 
